@@ -116,6 +116,7 @@ CASES = [
     "np.asarray([[1, 2, 3], [4, 5, 6]]).T.copy(order='K').ravel(order='K'), np.asarray([[1, 2, 3], [4, 5, 6]]).T.copy().ravel(order='K'), np.asarray([[1, 2, 3], [4, 5, 6]])[:, ::2].ravel(order='K')",
     "np.asfortranarray(np.asarray([[1, 2], [3, 4]])).ravel(order='K'), np.ascontiguousarray(np.asarray([[1, 2], [3, 4]]).T).ravel(order='K'), np.asarray([[1, 2], [3, 4]])[::-1].ravel(order='K')",
     "np.asarray([1, 2, 3])[::-1], np.asarray([1, 2, 3])[5:], np.asarray([1, 2, 3])[-2:]",
+    "np.array_equal(np.asarray([1.0, 2.0]), None), np.array_equal(None, None), np.array_equal(np.asarray([1, 2]), [1, 2])",
     "np.diff(np.asarray([1.0, 2.5, 4.0])), np.diff(np.asarray([1.0, 2.5]), append=7.0), np.diff(np.asarray([1, 2]), prepend=0)",
     "np.nan_to_num(np.asarray([1.5, np.nan, 3.0])), np.nan_to_num(np.asarray([1, 2])), np.nan_to_num(np.asarray([np.nan, np.nan, 2.0])).dtype",
     "np.asarray([[0.0, 1.0], [1.0, 2.0]])[1:, 0], np.asarray([[0.0, 1.0], [1.0, 2.0]])[:-1, 1]",
